@@ -21,7 +21,8 @@ FLOORS = {"quick": {"sequences": 100, "resets_checked": 100, "twin_comparisons":
 CASE_TIMEOUT = 900
 METHODS = ["RK45CKSolver", "DOPRI45", "RK4Solver", "EulerSolver", "HeunEulerSolver", "RK8713MSolver", "ABAs5o6HSolver", "SymplecticEulerSolver",
            "BackwardEuler", "RadauIIA5", "GaussLegendre4", "MidpointSolver", "LobattoIIIC4", "R2:RK4Solver", "R3:MidpointSolver", "R3:HeunEulerSolver", "R4:EulerSolver"]
-RICH_EXTRA = ["R2:RK4Solver", "R3:MidpointSolver", "R3:HeunEulerSolver", "R4:EulerSolver", "R2:RK45CKSolver", "R3:ABAs5o6HSolver", "R2:BackwardEuler", "R5:MidpointSolver"]
+RICH_EXTRA = ["R2:RK4Solver", "R3:MidpointSolver", "R3:HeunEulerSolver", "R4:EulerSolver", "R2:RK45CKSolver", "R5:MidpointSolver"]
+# (wrappers of bases flagged symplectic and of implicit bases are orders of magnitude slower at these tolerances: they get the short dedicated histories)
 NOT_RUN = "Integration has not been run."
 
 
@@ -524,11 +525,21 @@ def _split(spec):
     sa = sysrun.call_integrate(a, max_steps=50000)
     b = mk()
     raised = None
+    segs = [sa]
     for c in spec["cuts"]:
         sb = sysrun.call_integrate(b, t=t0 + c * (tf - t0), max_steps=50000)
+        segs.append(sb)
         raised = raised or sb["raised"]
-    sb = sysrun.call_integrate(b, max_steps=50000)
-    raised = raised or sb["raised"]
+        if sb["raised"]:
+            break
+    if not raised:
+        sb = sysrun.call_integrate(b, max_steps=50000)
+        segs.append(sb)
+        raised = raised or sb["raised"]
+    budget = any(isinstance(getattr(x.get("exc"), "__cause__", None), sysrun.StepBudgetExceeded) or isinstance(x.get("exc"), sysrun.StepBudgetExceeded) for x in segs)
+    if budget:
+        rec.skipped = "step budget of the harness exhausted (slow method at this tolerance)"
+        return rec.out()
     if sa["raised"] or raised:
         if bool(sa["raised"]) != bool(raised):
             rec.violate("split_vs_single", "one_raised_the_other_did_not", feats, single=str(sa["raised"]), split=str(raised))
